@@ -306,7 +306,7 @@ fn general_run(prop: &str, run: usize, seed: u64, knobs: Knobs, opt: Opt) -> Vec
 fn binding_run(prop: &str, run: usize, seed: u64) -> Vec<J> {
     let mut rng = StdRng::seed_from_u64(seed);
     // names real circuits use: header names are any non-blank text
-    let pool = ["A", "B", "Q", "R", "S", "~CLR", "I/O7", "Cn+4", "C", "x", "D_out", "é1", "n"];
+    let pool = ["A", "B", "Q", "R", "S", "~CLR", "I/O7", "Cn+4", "C", "x", "D", "D_out", "é1", "n"];
     let mut names: Vec<&str> = pool.to_vec();
     names.shuffle(&mut rng);
     let nsig = rng.gen_range(1..=6);
